@@ -761,4 +761,301 @@ theorem core_rmkv {compound : Bool} {n : Node} (hb : BlkInv n.blk) (h : Core com
     rw [c2, head?_eraseIdx_pos _ _ h0] at hk0
     exact h.cache k0 hk0
 
+/-! ### lookup through the cached first key -/
+
+theorem head?_keys (n : Node) (hne : n.pi ≠ []) : (keys n).head? = some (keyAt n 0) := by
+  cases hq : n.pi with
+  | nil => exact absurd hq hne
+  | cons x xs => simp [keys, keyAt, piAt, hq]
+
+/-- with a cache that describes the first key, the model of `_lx_sblk_cmp_key` on the node's fields is the comparator `Cmp.lxCmp` of
+C19 on the node's first key -/
+theorem lxCmp_eq (compound : Bool) {n : Node} (hc : CacheOk n) (hne : n.pi ≠ []) (k : Bytes) (c2 : Nat) :
+    lxCmp compound n k c2 = Cmp.lxCmp .plain compound (keyAt n 0) k c2 := by
+  obtain ⟨h1, h2, h3⟩ := hc _ (head?_keys n hne)
+  unfold lxCmp Cmp.lxCmp
+  simp only [h2, h1, List.length_take]
+  by_cases hf : (keyAt n 0).length ≤ P
+  · have : n.full = true := h3.2 hf
+    simp [this, hf]
+  · have : n.full = false := by
+      cases hq : n.full with
+      | false => rfl
+      | true => exact absurd (h3.1 hq) hf
+    simp [this, hf]
+
+theorem preOf_length (compound : Bool) (c : Nat) (hc : c < 2 ^ 63) : (preOf compound c).length ≤ P := by
+  cases compound with
+  | false => simp [preOf]
+  | true =>
+    have := Cmp.enc_length_le10 hc
+    have e : Gen.IW_VNUMBUFSZ ≤ P := by decide
+    simp only [preOf, if_true]; omega
+
+theorem preOf_append (compound : Bool) (k : Bytes) (c : Nat) : preOf compound c ++ k = Cmp.stored compound k c := by
+  cases compound <;> simp [preOf, Cmp.stored]
+
+/-- **lookup through the cached prefix agrees with the full comparison**: the sign `_lx_sblk_cmp_key` computes from the node record
+(cached bytes, `lkl`, `SBLK_FULL_LKEY`, falling back to the stored key on a tie) is the sign of `_cmp_keys` on the node's whole
+first key -/
+theorem lookup_agrees (compound : Bool) {n : Node} (h : Core compound n) (hne : n.pi ≠ []) (k : Bytes) (c2 : Nat) :
+    sgn (lxCmp compound n k c2) = sgn (Cmp.cmpKeys .plain compound (keyAt n 0) k c2) := by
+  rw [lxCmp_eq compound h.cache hne]
+  cases compound with
+  | false => exact Cmp.lxCmp_plain_nc _ _ _
+  | true =>
+    have hm : keyAt n 0 ∈ keys n := by
+      have := head?_keys n hne
+      exact List.mem_of_mem_head? this
+    obtain ⟨w1, _, w3⟩ := h.wf _ hm
+    rw [← w1]
+    have hl := Cmp.enc_length_le10 (w3 rfl)
+    have e : Gen.IW_VNUMBUFSZ < Gen.PREFIX_KEY_LEN_V2 := by decide
+    exact Cmp.lxCmp_plain_c _ _ _ _ (by omega)
+
+/-! ### a database with at most one node -/
+
+/-- invariant of the one-node database -/
+def DbInv (compound : Bool) (d : Db) : Prop := ∀ n, d = some n → NodeInv compound n
+
+theorem sl_replicate_free (m i : Nat) : sl (List.replicate m Slot.free) i = Slot.free := by
+  by_cases h : i < m
+  · simp [sl, List.getD_eq_getElem?_getD, List.getElem?_replicate, h]
+  · exact sl_ge _ _ (by simp; omega)
+
+theorem core_fresh (compound : Bool) : BlkInv fresh.blk ∧ Core compound fresh := by
+  refine ⟨blkInv_create _ (by decide) (by decide), ?_⟩
+  refine { pnum := rfl, le32 := by decide, nodup := List.nodup_nil, mem := ?_, sorted := List.Pairwise.nil, wf := ?_, cache := ?_ }
+  · intro i
+    show i ∈ ([] : List Nat) ↔ (sl (List.replicate Gen.KVBLK_IDXNUM Slot.free) i).len ≠ 0
+    rw [sl_replicate_free]
+    simp [Slot.free]
+  · intro k hk; exact absurd hk (by simp [keys, fresh])
+  · intro k0 hk0; simp [keys, fresh] at hk0
+
+theorem nodeInv_ofRes {compound : Bool} {r : Res} {d : Db}
+    (h : ∀ n', r = .ok n' → Geo n'.blk ∧ Core compound n' ∧ 0 < n'.pnum) (e : ofRes r = .ok d) : DbInv compound d := by
+  cases r with
+  | ok n' =>
+    simp only [ofRes, PutRes.ok.injEq] at e
+    obtain ⟨g, c, p⟩ := h n' rfl
+    intro n hn
+    rw [← e] at hn
+    simp only [Option.some.injEq] at hn
+    rw [← hn]
+    exact { toCore := core_sync c, blk := blkInv_sync g, pos := p }
+  | full => simp [ofRes] at e
+  | maxkvsz => simp [ofRes] at e
+
+/-- comparisons against the keys of a node: what `_sblk_find_pi_mm` sees -/
+theorem found_findPi {compound : Bool} {n : Node} (h : NodeInv compound n) (k : Bytes) (c : Nat) :
+    Found (fun i => cmpOf compound k c (keyAt n i)) n.pnum (findPi n (cmpOf compound k c)) ∧
+    (∀ st ∈ keys n, cmpOf compound k c st = cmpS compound st (Cmp.stored compound k c)) := by
+  have hcmp : ∀ st ∈ keys n, cmpOf compound k c st = cmpS compound st (Cmp.stored compound k c) :=
+    fun st hst => cmpOf_eq compound k c st (h.wf st hst)
+  refine ⟨?_, hcmp⟩
+  have hklen : (keys n).length = n.pnum := by rw [h.pnum]; simp [keys]
+  have hm : Mono (fun i => cmpOf compound k c (keyAt n i)) n.pnum := by
+    have := mono_of_sorted compound (keys n) h.sorted (Cmp.stored compound k c) (fun i => cmpOf compound k c (keyAt n i))
+      (fun i hi => by
+        have hi' : i < n.pi.length := by rw [← h.pnum, ← hklen]; exact hi
+        show cmpOf compound k c (keyAt n i) = _
+        rw [keyAt_eq_getElem n i hi']
+        exact hcmp _ (List.getElem_mem _))
+    rw [hklen] at this; exact this
+  have hp := h.pos
+  simp only [findPi, if_neg (show ¬ n.pnum < 1 by omega)]
+  exact findGo_spec _ n.pnum hm n.pnum 0 n.pnum hp (Nat.le_refl _) (by omega) (fun i hi => by omega) (fun i hi1 hi2 => by omega)
+
+/-- **`iwkv_put` keeps the invariant** (new key at any position, in front of the first key, into an empty database; overwrite) -/
+theorem dbInv_put {compound : Bool} {d : Db} (h : DbInv compound d) (k : Bytes) (c : Nat) (val : Bytes) (hk : k ≠ [])
+    (hc : c < 2 ^ 63) (d' : Db) (e : put compound d k c val = .ok d') : DbInv compound d' := by
+  have hsk : WFS compound (preOf compound c ++ k) := by rw [preOf_append]; exact wfs_stored compound k c hk hc
+  have hpre := preOf_length compound c hc
+  cases d with
+  | none =>
+    simp only [put] at e
+    obtain ⟨fb, fc⟩ := core_fresh compound
+    apply nodeInv_ofRes _ e
+    intro n' hn'
+    exact core_addkvIns fb fc _ _ _ _ hsk hpre (fun st hst => absurd hst (by simp [keys, fresh]))
+      (fun st hst => absurd hst (by simp [keys, fresh])) n' hn'
+  | some n =>
+    have hn := h n rfl
+    obtain ⟨hfound, hcmp⟩ := found_findPi hn k c
+    have hcmp' : ∀ st ∈ keys n, cmpOf compound k c st = cmpS compound st (preOf compound c ++ k) := by
+      rw [preOf_append]; exact hcmp
+    have hne : n.pi ≠ [] := by
+      intro e0
+      have := hn.pnum; have := hn.pos
+      rw [e0] at *; simp at *; omega
+    simp only [put] at e
+    split at e
+    · rename_i hgt
+      split at e
+      · rename_i hlt
+        apply nodeInv_ofRes _ e
+        intro n' hn'
+        refine core_addkvIns hn.blk hn.toCore _ _ _ _ hsk hpre hcmp' ?_ n' hn'
+        -- the key is above the first key, hence above every key of the node
+        have hag := lookup_agrees compound hn.toCore hne k c
+        have hfirst : cmpOf compound k c (keyAt n 0) > 0 := by
+          have : sgn (lxCmp compound n k c) = 1 := Cmp.sgn_pos.2 hgt
+          rw [this] at hag
+          exact Cmp.sgn_pos.1 hag.symm
+        have hmem0 : keyAt n 0 ∈ keys n := List.mem_of_mem_head? (head?_keys n hne)
+        rw [hcmp _ hmem0] at hfirst
+        intro st hst
+        rw [hcmp st hst]
+        have hks : keys n = keyAt n 0 :: (keys n).tail := by
+          have := head?_keys n hne
+          cases hq : keys n with
+          | nil => rw [hq] at this; simp at this
+          | cons x xs => rw [hq] at this; simp at this; simp [this]
+        have hsorted := hn.sorted
+        rw [hks] at hsorted hst
+        rcases List.mem_cons.1 hst with e1 | hst
+        · rw [e1]; omega
+        · have hg : gtS compound (keyAt n 0) st := (List.pairwise_cons.1 hsorted).1 st hst
+          have h1 := (cmpS_flip compound _ _).1.1 hg
+          have := cmpS_trans compound st (keyAt n 0) _ h1 hfirst
+          omega
+      · exact absurd e (by simp)
+    · split at e
+      · rename_i hf
+        apply nodeInv_ofRes _ e
+        intro n' hn'
+        have hlt := (hfound.hit hf).1
+        have := core_updatekv hn.blk hn.toCore _ (by rw [← hn.pnum]; exact hlt) val n' hn'
+        exact ⟨this.1, this.2.1, by rw [this.2.2.1]; exact hn.pos⟩
+      · rename_i hf
+        split at e
+        · exact absurd e (by simp)
+        · apply nodeInv_ofRes _ e
+          intro n' hn'
+          have hf' : (findPi n (cmpOf compound k c)).1 = false := by
+            cases hq : (findPi n (cmpOf compound k c)).1 with
+            | false => rfl
+            | true => exact absurd hq hf
+          have hfd : Found (fun i => cmpOf compound k c (keyAt n i)) n.pnum (false, (findPi n (cmpOf compound k c)).2) := by
+            have := hfound
+            rw [show findPi n (cmpOf compound k c) = ((findPi n (cmpOf compound k c)).1, (findPi n (cmpOf compound k c)).2) from rfl, hf'] at this
+            exact this
+          exact core_addkv2 hn.blk hn.toCore _ _ _ _ _ hsk hpre hcmp' hfd n' hn'
+
+/-- a position found by key lies inside the node and holds that key -/
+theorem curPos_spec {compound : Bool} {d : Db} (h : DbInv compound d) (k : Bytes) (c : Nat) (pos : Nat)
+    (e : curPos compound d k c = some pos) :
+    ∃ n, d = some n ∧ pos < n.pnum ∧ cmpOf compound k c (keyAt n pos) = 0 := by
+  cases d with
+  | none => simp [curPos] at e
+  | some n =>
+    have hn := h n rfl
+    obtain ⟨hfound, _⟩ := found_findPi hn k c
+    simp only [curPos] at e
+    split at e
+    · exact absurd e (by simp)
+    · split at e
+      · rename_i hf
+        simp only [Option.some.injEq] at e
+        rw [← e]
+        exact ⟨n, rfl, (hfound.hit hf).1, (hfound.hit hf).2⟩
+      · exact absurd e (by simp)
+
+/-- removal of a position (last key: the node goes; otherwise `_sblk_rmkv`) keeps the invariant -/
+theorem dbInv_rmAt {compound : Bool} {n : Node} (h : NodeInv compound n) (pos : Nat) (hpos : pos < n.pnum) :
+    DbInv compound (rmAt n pos) := by
+  intro m hm
+  simp only [rmAt] at hm
+  split at hm
+  · exact absurd hm (by simp)
+  · rename_i h1
+    simp only [Option.some.injEq] at hm
+    rw [← hm]
+    obtain ⟨c1, c2, c3, _⟩ := core_rmkv h.blk h.toCore pos (by rw [← h.pnum]; exact hpos)
+    have := h.pos
+    exact { toCore := core_sync c2, blk := blkInv_sync c1.geo, pos := by show 0 < (rmkv n pos).pnum; rw [c3]; omega }
+
+/-- **`iwkv_del` keeps the invariant** (any position, including the first key and the last remaining key) -/
+theorem dbInv_del {compound : Bool} {d : Db} (h : DbInv compound d) (k : Bytes) (c : Nat) (d' : Db)
+    (e : del compound d k c = some d') : DbInv compound d' := by
+  cases d with
+  | none => simp [del] at e
+  | some n =>
+    cases hq : curPos compound (some n) k c with
+    | none => simp [del, hq] at e
+    | some pos =>
+      simp only [del, hq, Option.some.injEq] at e
+      obtain ⟨m, hm, hlt, _⟩ := curPos_spec h k c pos hq
+      simp only [Option.some.injEq] at hm
+      subst hm
+      rw [← e]
+      exact dbInv_rmAt (h n rfl) pos hlt
+
+/-- **`iwkv_cursor_set` keeps the invariant** -/
+theorem dbInv_curSet {compound : Bool} {d : Db} (h : DbInv compound d) (pos : Nat) (val : Bytes)
+    (hpos : ∀ n, d = some n → pos < n.pnum) (d' : Db) (e : curSet d pos val = .ok d') : DbInv compound d' := by
+  cases d with
+  | none => simp [curSet] at e
+  | some n =>
+    have hn := h n rfl
+    simp only [curSet] at e
+    apply nodeInv_ofRes _ e
+    intro n' hn'
+    have := core_updatekv hn.blk hn.toCore pos (by rw [← hn.pnum]; exact hpos n rfl) val n' hn'
+    exact ⟨this.1, this.2.1, by rw [this.2.2.1]; exact hn.pos⟩
+
+/-- **`iwkv_cursor_del` keeps the invariant** -/
+theorem dbInv_curDel {compound : Bool} {d : Db} (h : DbInv compound d) (pos : Nat)
+    (hpos : ∀ n, d = some n → pos < n.pnum) : DbInv compound (curDel d pos) := by
+  cases d with
+  | none => intro m hm; simp [curDel] at hm
+  | some n => exact dbInv_rmAt (h n rfl) pos (hpos n rfl)
+
+/-- preconditions the API checks before an operation reaches the node: non-empty key, compound part in the `int64_t` range -/
+def Op.ok : Op → Prop
+  | .put k c _ => k ≠ [] ∧ c < 2 ^ 63
+  | _ => True
+
+theorem dbInv_step {compound : Bool} {d : Db} (h : DbInv compound d) (op : Op) (hop : op.ok) : DbInv compound (step compound d op) := by
+  cases op with
+  | put k c v =>
+    simp only [step]
+    cases hq : put compound d k c v with
+    | ok d' => exact dbInv_put h k c v hop.1 hop.2 d' hq
+    | split => exact h
+    | failed _ => exact h
+  | del k c =>
+    simp only [step]
+    cases hq : del compound d k c with
+    | none => exact h
+    | some d' => exact dbInv_del h k c d' hq
+  | cset k c v =>
+    simp only [step]
+    cases hq : curPos compound d k c with
+    | none => exact h
+    | some pos =>
+      obtain ⟨m, hm, hlt, _⟩ := curPos_spec h k c pos hq
+      show DbInv compound (match curSet d pos v with | .ok d' => d' | _ => d)
+      cases hr : curSet d pos v with
+      | ok d' => exact dbInv_curSet h pos v (fun n hn => by rw [hm] at hn; simp only [Option.some.injEq] at hn; rw [← hn]; exact hlt) d' hr
+      | split => exact h
+      | failed _ => exact h
+  | cdel k c =>
+    simp only [step]
+    cases hq : curPos compound d k c with
+    | none => exact h
+    | some pos =>
+      obtain ⟨m, hm, hlt, _⟩ := curPos_spec h k c pos hq
+      exact dbInv_curDel h pos (fun n hn => by rw [hm] at hn; simp only [Option.some.injEq] at hn; rw [← hn]; exact hlt)
+
+theorem dbInv_run {compound : Bool} {d : Db} (h : DbInv compound d) (ops : List Op) (hops : ∀ op ∈ ops, op.ok) :
+    DbInv compound (run compound d ops) := by
+  induction ops generalizing d with
+  | nil => exact h
+  | cons op ops ih =>
+    exact ih (dbInv_step h op (hops op (List.mem_cons_self))) (fun o ho => hops o (List.mem_cons_of_mem _ ho))
+
+theorem dbInv_none (compound : Bool) : DbInv compound none := fun _ h => absurd h (by simp)
+
 end IwModel.KvNode
